@@ -722,8 +722,9 @@ impl TransactionBuilder {
                         let not_exceed_max = new < max;
                         if move_closer && not_exceed_max {
                             std::mem::swap(i, j);
-                            available_indices.insert(*i);
-                            available_indices.remove(j);
+                            // after the swap `i` is the newly associated input and `j` the one given back
+                            available_indices.remove(i);
+                            available_indices.insert(*j);
                         }
                     }
                 }
